@@ -119,7 +119,7 @@ static int step(int e)
     } else if (e == ev_stop) { M.stopped = 1; nc_nmt(2, 0); check_cbs(ev_expect, -1, 0); }
     else if (e == ev_start) { M.stopped = 0; nc_nmt(1, 0); check_cbs(ev_expect, -1, 0); }
     else { M.stopped = 0; nc_nmt(130, 0); for (int i = 0; i < M.n; i++) { M.e[i].armed = 0; M.e[i].events = 0; M.e[i].last = 0; M.e[i].rem = 0; } check_cbs(ev_expect, -1, 0); }
-    (void)CONodeGetErr(&Node);
+    nc_poll();                   
     for (int i = 0; i < M.n; i++) if (!M.e[i].armed) M.e[i].rem = 0;
     return MC_OK;
 }
